@@ -1,6 +1,7 @@
 #!/bin/bash
 # seedrun.sh <seedname> <check> [<check>...] : apply /verif/seeded/<seedname>/patch.diff to /repo, run the quick checks, undo.
 S=/verif/seeded/$1; shift
+trap "" PIPE   # never die half-way (the tree must be restored) when the reader of our output goes away
 cd /repo && git status --short | grep -v '^??' && { echo "/repo dirty"; exit 2; }
 git -C /repo apply "$S/patch.diff" || { echo "patch does not apply"; exit 2; }
 cd /verif
